@@ -28,11 +28,16 @@ Theorem C13_capsule (p : V3R) (T : Pose R) (r h : R) :
 Proof. exact (point_in_capsule_iff p T r h). Qed.
 Print Assumptions C13_capsule.
 
+(** [0 < radii]: the code divides by the radii; for a zero radius the equivalence would hold over R
+    only because Coq's division is total (x / 0 = 0), whereas binary64 gives NaN / inf -> False *)
 Theorem C13_ellipsoid (p : V3R) (T : Pose R) (radii : V3R) :
-  is_rotation (rot T) -> (point_in_ellipsoid p T radii = true <-> ellipsoid_set T radii p).
-Proof. exact (point_in_ellipsoid_iff p T radii). Qed.
+  is_rotation (rot T) -> 0 < vx radii -> 0 < vy radii -> 0 < vz radii ->
+  (point_in_ellipsoid p T radii = true <-> ellipsoid_set T radii p).
+Proof. intros H _ _ _. exact (point_in_ellipsoid_iff p T radii H). Qed.
 Print Assumptions C13_ellipsoid.
 
+(** no division in the cylinder and box predicates: the equivalence holds for every radius, length
+    and size (a negative one makes both sides false) *)
 Theorem C13_cylinder (p : V3R) (T : Pose R) (r l : R) :
   is_rotation (rot T) -> (point_in_cylinder p T r l = true <-> cylinder_set T r l p).
 Proof. exact (point_in_cylinder_iff p T r l). Qed.
@@ -161,6 +166,7 @@ Print Assumptions C13_disk_support.
 Definition T345y : Pose R := P (M (V (3 / 5) 0 (4 / 5)) (V 0 1 0) (V (- (4 / 5)) 0 (3 / 5))) (V 1 2 3).
 Lemma T345y_rotation_nonvacuous : is_rotation (rot T345y).
 Proof. apply is_rotation_cols. unfold cols_orthonormal, T345y. vunfold. cbn. repeat split; field. Qed.
+Print Assumptions T345y_rotation_nonvacuous.
 
 Example C13_sphere_nonvacuous :
   point_in_sphere (V 1 2 4) (V 1 2 3) 2 = true /\ point_in_sphere (V 4 2 3) (V 1 2 3) 2 = false.
@@ -170,6 +176,7 @@ Proof.
   - apply not_true_is_false. intros H. apply C13_sphere in H. apply sphere_set_iff in H.
     revert H. vunfold. cbn [vx vy vz]. lra.
 Qed.
+Print Assumptions C13_sphere_nonvacuous.
 (** the centre is accepted by every pose-carrying predicate, for the rotated pose *)
 Example C13_centre_nonvacuous :
   point_in_capsule (V 1 2 3) T345y 1 2 = true /\ point_in_ellipsoid (V 1 2 3) T345y (V 1 2 3) = true /\
@@ -179,11 +186,12 @@ Proof.
   pose proof T345y_rotation_nonvacuous as HR.
   split; [|split; [|split; [|split]]].
   - apply C13_capsule; auto; [lra|]. apply (SupportA.center_capsule_in T345y 1 2); lra.
-  - apply C13_ellipsoid; auto. apply (SupportB.center_ellipsoid_in T345y (V 1 2 3)); cbn [vx vy vz]; lra.
+  - apply C13_ellipsoid; auto; cbn [vx vy vz]; try lra. apply (SupportB.center_ellipsoid_in T345y (V 1 2 3)); cbn [vx vy vz]; lra.
   - apply C13_cylinder; auto. apply (SupportA.center_cylinder_in T345y 1 2); lra.
   - apply C13_box; auto. apply (SupportA.center_box_in T345y (V 1 2 3)); cbn [vx vy vz]; lra.
   - apply C13_cone; auto; [lra|]. apply (SupportB.center_cone_in T345y 1 2); lra.
 Qed.
+Print Assumptions C13_centre_nonvacuous.
 (** a point far away is rejected *)
 Example C13_outside_nonvacuous :
   point_in_cylinder (V 100 2 3) T345y 1 2 = false /\ point_in_box (V 100 2 3) T345y (V 1 2 3) = false.
@@ -195,6 +203,7 @@ Proof.
   - apply C13_box in H; auto. unfold box_set in H. rewrite image_rotation_iff in H by auto.
     destruct H as [H _]. revert H. unfold T345y. vunfold. cbn [vx vy vz]. rewrite ContainProofs.Rabs_le_iff. lra.
 Qed.
+Print Assumptions C13_outside_nonvacuous.
 
 (** ** per-input verdicts: a point certified by [outside_cert] (a separating direction, evaluated
        by vm_compute on exact rationals) is at distance >= g from every point of the shape, so
